@@ -125,6 +125,29 @@ fn main() {
             }
         }
     }
+    // extreme aspect ratios with wide strokes: thin-tall and flat-wide ellipses / rounded rectangles / rectangles
+    // (rows far from the centre where the gap between the stroke and fill outlines is smaller than the stroke)
+    {
+        let longs: Vec<u32> = if th { vec![16, 20, 25, 30, 39, 40, 55] } else { vec![20, 30, 40] };
+        let mut n = 0usize;
+        for thin in 1..=9u32 {
+            for &long in &longs {
+                for w in 1..=8u32 {
+                    for al in 0..3u32 {
+                        n += 1;
+                        let (a, b) = if n % 2 == 0 { (thin, long) } else { (long, thin) };
+                        let (f, s) = [(col.fill, col.stroke), (-1, col.stroke), (col.fill, col.fill)][n % 3];
+                        let shape = match (n / 2) % 4 {
+                            0 | 1 => json!({"k":"ellipse","tl":[-4, 2],"size":[a, b]}),
+                            2 => json!({"k":"rrect","r":[-4, 2, a, b],"radii":[[thin / 2 + 1, long / 3], [thin, thin], [long / 2, 2], [1, 1]]}),
+                            _ => json!({"k":"rect","r":[-4, 2, a, b]}),
+                        };
+                        run_case(&mut rec, &json!({"shape": shape, "style": style_desc(f, s, w, al)}));
+                    }
+                }
+            }
+        }
+    }
     // seeded larger shapes
     let nseed = if th { 20000 } else { 800 };
     for _ in 0..nseed {
@@ -141,7 +164,7 @@ fn main() {
             }
         };
         let sw = if rng.chance(1, 3) { rng.u32r(0, m) } else { rng.u32r(0, 6) };
-        let (f, s) = [(col.fill, col.stroke), (col.fill, -1), (-1, col.stroke)][rng.usize(0, 2)];
+        let (f, s) = [(col.fill, col.stroke), (col.fill, -1), (-1, col.stroke), (col.fill, col.fill)][rng.usize(0, 3)];
         run_case(&mut rec, &json!({"shape": shape, "style": style_desc(f, s, sw, rng.u32r(0, 2))}));
     }
     rec.finish(json!({}));
